@@ -45,6 +45,9 @@ def run_witness(w):
                 rs = [e for e in ev if e.startswith('resp ') or e == 'silent' or e.startswith('panic') or e.startswith('err')]
                 got = [resp_status(e) if e.startswith('resp ') else e for e in rs]
                 if got != chk['value']: bad = True; why.append('response statuses %r, required %r' % (got, chk['value']))
+            elif t == 'lens':
+                got = [int(e.split()[1]) for e in ev if e.startswith('len ')]
+                if got != chk['value']: bad = True; why.append('store sizes %r, required %r' % (got[:12], chk['value'][:12]))
             elif t == 'count_prefix':
                 n = len([e for e in ev if e.startswith(chk['value'])])
                 if n != chk['count']: bad = True; why.append('%d events with prefix %r, required %d' % (n, chk['value'], chk['count']))
@@ -251,4 +254,42 @@ def gen_sock(pid, f):
             if got != want:
                 return {'kind': 'sock', 'lines': lines, 'expect_recv': want, 'what': 'pipeline "%s" delivered as "%s": the server answers %s..., the request path requires %s...' % (name, dn, got[:48], want[:48]),
                         'required': 'the response bytes do not depend on segmentation and equal those of decode -> handler -> encode'}
+    return None
+
+# ------------------------------------------------------------------------------------------------
+# C15 (and C01 with "random eviction, limit not reached"): a workload that only stores NEW keys, deletes (cas 0,
+# matching, stale), and reads - the operations whose accounting memc-rs gets right - under a limit far above the live
+# set must never lose a live key.  (Overwrites, rejected stores, flushes and expiries are the open known findings.)
+@generator(r'server/policy\.')
+def gen_policy(pid, f):
+    import random, os
+    rng = random.Random(int(os.environ.get('VERIF_SEED', '0') or 0))
+    V = b'v' * 100
+    for variant in ('cas0', 'matching', 'stale', 'mixed'):
+        lines = ['policy random 8192']
+        live = {}
+        serial = 0
+        checks = []
+        for step in range(900):
+            if len(live) < 8:
+                k = b'k%d' % serial; serial += 1
+                lines.append('feed ' + f_set(k, V, op=0x11).hex()); live[k] = serial  # CAS of a fresh store == counter value
+            else:
+                k = rng.choice(sorted(live))
+                mode = variant if variant != 'mixed' else rng.choice(['cas0', 'matching', 'stale'])
+                if mode == 'cas0': lines.append('feed ' + f_key(0x14, k).hex()); del live[k]
+                elif mode == 'matching': lines.append('feed ' + f_key(0x14, k, cas=live[k]).hex()); del live[k]
+                else: lines.append('feed ' + f_key(0x14, k, cas=0xdeadbeef).hex())
+                if mode == 'stale':
+                    # make room so the workload keeps moving
+                    k2 = rng.choice(sorted(live)); lines.append('feed ' + f_key(0x14, k2).hex()); del live[k2]
+            if step % 50 == 49:
+                lines.append('len'); checks.append(len(live))
+        ev = replaytool.run_session(lines)
+        lens = [int(e.split()[1]) for e in ev if e.startswith('len ')]
+        if lens != checks:
+            idx = next((i for i, (a, b) in enumerate(zip(lens, checks)) if a != b), 0)
+            return {'kind': 'session', 'lines': lines, 'expect': [{'type': 'lens', 'value': checks}],
+                    'required': 'no live key is ever evicted: the stored data (about 1 KB) is far below the 8 KB limit',
+                    'what': 'random eviction, workload of new-key stores and %s deletes: after %d steps the store holds %d keys, %d are live' % (variant, (idx + 1) * 50, lens[idx] if idx < len(lens) else -1, checks[idx])}
     return None
